@@ -72,7 +72,8 @@ def char_soup(rng, max_len=14):
 
 
 LIT_PIECES = ["1", "12", "255", " ", "  ", "é", "€", "٣", "a", "z", "\\", "\\n", "\\u{22}", "😀", "_", ".", "0", "x", "\t",
-              "\\u{1é_2}", "\\u{٣}", "\\u{_}", "\\u{", "}", "1é_2", "٣_1"]
+              "\\u{1é_2}", "\\u{٣}", "\\u{_}", "\\u{", "}", "1é_2", "٣_1",
+              "\\u{D800}", "\\u{dfff}", "\\u{d83d}\\u{de00}", "\\u{110000}", "\\u{FFFFFFFF}", "\\u{}", "\\u{10FFFF}"]
 
 
 def literal_soup(rng):
